@@ -335,7 +335,7 @@ Proof.
     + (* the column is read *)
       destruct NBC as ((NB1 & NBP1) & NBC).
       destruct (cs_read_gen bv o rf ROut fo 0 VNull k s (HT cc0 blocks) m Hs NB1 NBP1 (props_ok bv o rf ROut fo 0 VNull (HT cc0 blocks)))
-        as (st1 & l1 & k1 & s1 & h1 & m1 & CR & (x1 & Hm1) & Out1).
+        as (st1 & l1 & k1 & s1 & h1 & m1 & CR & (x1 & Hm1) & Out1 & CST1).
       rewrite HT_len in Out1.
       assert (Htl : exists X, h1 = HT cc0 (blocks ++ X)) by (destruct Out1 as [(_ & _ & (hnew & -> & _) & _)|(_ & _ & j & ->)]; eexists; apply HT_app).
       destruct Htl as (X & Htl).
@@ -702,7 +702,7 @@ Theorem cs_read_position_is_the_models rf rp fo po k sx m h c sM : Forall byte s
     (st = SBDF_OK -> lookup strm_var (vars fin) = Some (VBytes sM)).
 Proof.
   intros Hs (NB & NBP) EM. destruct (cs_read_full_source rf rp fo po k sx m h Hs NB NBP) as (f0 & F). exists f0. intros f Hf.
-  destruct (F f Hf) as (st & fin & C & _ & Out). exists st, fin. split; [exact C|]. intros E.
+  destruct (F f Hf) as (st & fin & C & _ & Out & _). exists st, fin. split; [exact C|]. intros E.
   destruct Out as [(_ & _ & (s1 & va & s2 & v & s3 & s' & A1 & A2 & A3 & A4 & A5 & A6) & _)|(Hn & _)]; [|unfold SBDF_OK in E; lia].
   pose proof (cs_end_intro sx s1 va s2 v s3 s' A1 A2 A3 A4 A5) as CE. rewrite (cs_end_of_model sx c sM EM) in CE. assert (sM = s') by congruence. subst s'. exact A6.
 Qed.
@@ -769,4 +769,50 @@ Proof.
   - destruct (cs_of_encoding c rest (Hw c (or_introl eq_refl)) (Hnb 0%nat c eq_refl ltac:(rewrite Z.add_0_r; exact Es))) as (CE & CN).
     rewrite CE. split; [exact I1|]. split; [exact CN|exact I2].
   - unfold csk_end. rewrite (cs_skip_exact false c rest (Hw c (or_introl eq_refl))). split; [exact I1|]. split; [exact I|exact I2].
+Qed.
+
+(* ================================================================== the reading side of the model only ever shortens the stream;
+   the status functions of ImpFactsCsRead.v are the statuses of the L1 model's cs_read *)
+Lemma take_z_split : forall (s : list Z) n a t, take_z s n = Some (a, t) -> s = a ++ t.
+Proof.
+  induction s as [|x s IH]; intros n a t E; cbn [take_z] in E.
+  - destruct (n =? 0); [injection E as <- <-; reflexivity|discriminate].
+  - destruct (n =? 0); [injection E as <- <-; reflexivity|]. destruct (take_z s (n - 1)) as [[a' t']|] eqn:E2; [|discriminate].
+    injection E as <- <-. cbn [app]. f_equal. apply (IH (n - 1) a' t' E2).
+Qed.
+Lemma shr_fread n : shr (fread_bytes n).
+Proof.
+  intros s a t Hs. unfold fread_bytes. destruct (n <? 0); [discriminate|]. destruct (take_z s n) as [[a' t']|] eqn:E; [|discriminate]. intros [= <- <-].
+  pose proof (take_z_split s n a' t' E) as G. subst s. apply Forall_app in Hs. split; [exact (proj2 Hs)|rewrite app_length; lia].
+Qed.
+Lemma shr_ralloc b : shr (ralloc None b).
+Proof. intros s a t Hs. unfold ralloc. destruct (alloc_ok None b); [|discriminate]. intros [= _ <-]. split; [exact Hs|lia]. Qed.
+Lemma shr_read_elem ty packed : shr (read_elem false None ty packed).
+Proof.
+  unfold read_elem. apply shr_bind.
+  - destruct packed; [apply shr1_shr; intros s a t Hs E; apply (ImpFacts7S.read7_loop_shr _ _ _ _ _ _ Hs E)|apply shr1_shr, shr1_read_int32].
+  - intros len. destruct (len <? 0); [apply shr_fail|]. destruct ((ty =? SBDF_STRINGTYPEID) && (len =? INT_MAX)); [apply shr_fail|].
+    apply shr_bind; [apply shr_ralloc|intros _; apply shr_fread].
+Qed.
+Lemma shr_read_objects ty cnt p : shr (read_objects false None ty cnt p).
+Proof.
+  unfold read_objects. destruct (cnt <? 0); [apply shr_fail|]. destruct (is_arr ty).
+  - apply shr_bind; [apply shr_ralloc|]. intros _.
+    apply shr_bind; [destruct p; [apply shr_bind; [apply shr1_shr, shr1_read_int32|intros; apply shr_ret]|apply shr_ret]|]. intros _.
+    apply shr_bind; [apply shr_rrepeat, shr_read_elem|intros; apply shr_ret].
+  - cbv zeta. destruct (usize ty <? 0); [apply shr_fail|]. destruct (usize ty =? 0); [apply shr_fail|].
+    apply shr_bind; [apply shr_ralloc|]. intros u. apply shr_bind; [apply shr_fread|intros; apply shr_ret].
+Qed.
+Lemma shr_obj_read_arr ty : shr (Obj.obj_read_arr false None ty).
+Proof. unfold Obj.obj_read_arr. apply shr_bind; [apply shr1_shr, shr1_read_int32|intros; apply shr_read_objects]. Qed.
+Lemma shr1_va_read : shr1 (Va.va_read false None).
+Proof.
+  unfold Va.va_read. apply shr1_bind; [apply shr1_read_int8|]. intros e. apply shr_bind; [apply shr1_shr; unfold vt_read; apply shr1_read_int8|]. intros vt.
+  destruct (e =? SBDF_PLAINARRAYENCODINGTYPEID); [apply shr_bind; [apply shr_obj_read_arr|intros; apply shr_ret]|].
+  destruct (e =? SBDF_RUNLENGTHENCODINGTYPEID).
+  { apply shr_bind; [apply shr1_shr, shr1_read_int32|]. intros v. destruct (v <? 0); [apply shr_fail|].
+    apply shr_bind; [apply shr_obj_read_arr|]. intros ob1. apply shr_bind; [apply shr_obj_read_arr|intros; apply shr_ret]. }
+  destruct (e =? SBDF_BITARRAYENCODINGTYPEID); [|apply shr_fail].
+  apply shr_bind; [apply shr1_shr, shr1_read_int32|]. intros v. destruct (v <? 0); [apply shr_fail|].
+  apply shr_bind; [apply shr_ralloc|]. intros u. apply shr_bind; [apply shr_fread|intros; apply shr_ret].
 Qed.
